@@ -314,6 +314,7 @@ func rangesHaveBackref(ranges []pmtiles.VerifRange) bool {
 // ---------- e2e extract ----------
 
 type extractCfg struct {
+	cli     bool // through the command-line binary
 	threads int
 	of      float32
 	http    bool
@@ -385,7 +386,7 @@ func runExtract(src []byte, minz, maxz int8, bbox string, cfg extractCfg) ([]byt
 		defer srv.Close()
 		key = srv.URL + "/a.pmtiles"
 	}
-	err := pmtiles.Extract(discardLogger, "", key, minz, maxz, "", bbox, out, cfg.threads, cfg.of, false)
+	err := opExtract(cfg.cli, key, minz, maxz, bbox, out, cfg.threads, cfg.of)
 	if err != nil {
 		return nil, recs, err
 	}
@@ -671,13 +672,19 @@ func (C07) RunGo(line string) string {
 	case "mergecheck":
 		return runMergecheck(t)
 	case "extract":
-		runs, _, bad := runExtractConfigs(t, c07Cfgs)
+		cfgs := c07Cfgs
+		if lineHash(line)%6 == 0 && os.Getenv("VERIF_CLI") != "" {
+			// the same extract through the command-line binary: once with its default threads/overfetch,
+			// once with explicit flags, once from an HTTP source
+			cfgs = append(append([]extractCfg{}, c07Cfgs...), extractCfg{cli: true, threads: 4, of: 0.05}, extractCfg{cli: true, threads: 2, of: 0.3}, extractCfg{cli: true, threads: 3, of: 0, http: true})
+		}
+		runs, _, bad := runExtractConfigs(t, cfgs)
 		if bad != "" {
 			return bad
 		}
 		for _, r := range runs[1:] {
 			if !bytes.Equal(r.out, runs[0].out) {
-				return fmt.Sprintf("outputs-differ threads=%d overfetch=%v http=%v sha=%x vs %x", r.cfg.threads, r.cfg.of, r.cfg.http, sha256.Sum256(r.out), sha256.Sum256(runs[0].out))
+				return fmt.Sprintf("outputs-differ cli=%v threads=%d overfetch=%v http=%v sha=%x vs %x", r.cfg.cli, r.cfg.threads, r.cfg.of, r.cfg.http, sha256.Sum256(r.out), sha256.Sum256(runs[0].out))
 			}
 		}
 		ra := readWholeArchive(runs[0].out)
@@ -701,6 +708,9 @@ func (C07) Branch(line, goOut string) string {
 		b := "noregion"
 		if len(cm) >= 3 && cm[2] != "-" {
 			b = "bbox"
+		}
+		if lineHash(line)%6 == 0 && os.Getenv("VERIF_CLI") != "" {
+			b += " (also through the command-line binary)"
 		}
 		return "extract " + b
 	}
